@@ -71,6 +71,12 @@ type TermCfg struct {
 	MaxDepth int
 	// Name gives the symbol used for an atomic callee (default: module-relative full name)
 	Name func(fullName string) string
+	// Writers: module functions that append an encoding of their 2nd argument to the stream given as
+	// 1st argument (WriteVlen): modelled as write(stream, op(arg))
+	Writers map[string]string
+	// ParamNames: symbols for the root function's parameters by position (receiver first); default: source names.
+	// Rules use it so that renaming a parameter does not change the terms.
+	ParamNames []string
 }
 
 type tval struct {
@@ -94,7 +100,7 @@ type termFrame struct {
 	pred     *ssa.BasicBlock
 	visit    map[*ssa.BasicBlock]int
 	ctx      string
-	loopSnap map[*ssa.BasicBlock]map[string]string
+	loopSnap map[*ssa.BasicBlock]map[string]*Term
 }
 
 type termPath struct {
@@ -141,9 +147,13 @@ func NewTermInterp(p *core.Program, cfg TermCfg) *TermInterp {
 func (ti *TermInterp) Run(fn *ssa.Function) []PathResult {
 	ti.results = nil
 	ti.npaths = 0
-	fr := &termFrame{fn: fn, vals: map[ssa.Value]tval{}, visit: map[*ssa.BasicBlock]int{}, loopSnap: map[*ssa.BasicBlock]map[string]string{}}
-	for _, p := range fn.Params {
-		fr.vals[p] = ti.paramVal(p.Name(), p.Type())
+	fr := &termFrame{fn: fn, vals: map[ssa.Value]tval{}, visit: map[*ssa.BasicBlock]int{}, loopSnap: map[*ssa.BasicBlock]map[string]*Term{}}
+	for i, p := range fn.Params {
+		name := p.Name()
+		if i < len(ti.Cfg.ParamNames) && ti.Cfg.ParamNames[i] != "" {
+			name = ti.Cfg.ParamNames[i]
+		}
+		fr.vals[p] = ti.paramVal(name, p.Type())
 	}
 	path := &termPath{heap: map[string]*Term{}}
 	ti.walk(fr, fn.Blocks[0], nil, path, 0, func(ret []tval, p *termPath) {
@@ -313,17 +323,21 @@ func (ti *TermInterp) walk(fr *termFrame, b, pred *ssa.BasicBlock, p *termPath, 
 	body := loopBody(b)
 	if body != nil {
 		if !second {
-			snap := map[string]string{}
+			snap := map[string]*Term{}
 			for k, v := range p.heap {
-				snap[k] = v.String()
+				snap[k] = v
 			}
 			fr.loopSnap[b] = snap
 		} else {
-			// one iteration done: wrap everything the body changed
+			// one iteration done: wrap everything the body changed: loop(state before, state after one iteration)
 			snap := fr.loopSnap[b]
 			for k, v := range p.heap {
-				if snap[k] != v.String() {
-					p.heap[k] = T("loop", v)
+				pre, had := snap[k]
+				if !had {
+					pre = ti.initial(k)
+				}
+				if pre.String() != v.String() {
+					p.heap[k] = T("loop", pre, v)
 				}
 			}
 			p.loops++
@@ -366,6 +380,9 @@ func (ti *TermInterp) walk(fr *termFrame, b, pred *ssa.BasicBlock, p *termPath, 
 			if second && body != nil && body[s] {
 				continue // after one iteration only the exits are followed
 			}
+			if !(second && body != nil) && p.contradicts(ctT, ct, i != 0) {
+				continue // the same condition was decided the other way earlier on this path
+			}
 			np := p
 			nfr := fr
 			if i == 0 && !(second && body != nil) {
@@ -392,6 +409,32 @@ func (ti *TermInterp) walk(fr *termFrame, b, pred *ssa.BasicBlock, p *termPath, 
 	fr.visit[b]--
 }
 
+var complOp = map[string]string{"==": "!=", "!=": "==", "<": ">=", ">=": "<", ">": "<=", "<=": ">"}
+
+// contradicts: the path already holds the opposite of (neg ? !c : c). Terms are
+// pure functions of the inputs and of uniquely named call results, so an equal
+// term has an equal value.
+func (p *termPath) contradicts(c *Term, cs string, neg bool) bool {
+	alt := ""
+	if co, ok := complOp[c.Op]; ok && len(c.Args) == 2 {
+		alt = (&Term{Op: co, Args: c.Args}).String()
+	}
+	for i, t := range p.cond {
+		tn := p.condN[i]
+		ts := t
+		if tn {
+			ts = t[1:]
+		}
+		if ts == cs && tn != neg {
+			return true
+		}
+		if alt != "" && ts == alt && tn == neg {
+			return true
+		}
+	}
+	return false
+}
+
 func (ti *TermInterp) npathsInc(depth int) {
 	if depth == 0 {
 		ti.npaths++
@@ -399,7 +442,7 @@ func (ti *TermInterp) npathsInc(depth int) {
 }
 
 func (fr *termFrame) clone() *termFrame {
-	n := &termFrame{fn: fr.fn, vals: make(map[ssa.Value]tval, len(fr.vals)), pred: fr.pred, visit: map[*ssa.BasicBlock]int{}, ctx: fr.ctx, loopSnap: map[*ssa.BasicBlock]map[string]string{}}
+	n := &termFrame{fn: fr.fn, vals: make(map[ssa.Value]tval, len(fr.vals)), pred: fr.pred, visit: map[*ssa.BasicBlock]int{}, ctx: fr.ctx, loopSnap: map[*ssa.BasicBlock]map[string]*Term{}}
 	for k, v := range fr.vals {
 		n.vals[k] = v
 	}
@@ -416,8 +459,8 @@ func (ti *TermInterp) step(fr *termFrame, ins ssa.Instruction, p *termPath, dept
 	switch x := ins.(type) {
 	case *ssa.Alloc:
 		name := x.Comment
-		if name == "" {
-			name = x.Name()
+		if name == "" || name == "new" || name == "complit" || name == "slicelit" || name == "makeslice" || name == "varargs" {
+			name = x.Name() + ":" + x.Comment // several allocations share these generic comments
 		}
 		fr.vals[x] = tval{addr: "a:" + fr.ctx + name}
 	case *ssa.Phi:
@@ -462,8 +505,9 @@ func (ti *TermInterp) step(fr *termFrame, ins ssa.Instruction, p *termPath, dept
 		is := "*"
 		if strings.HasPrefix(idx.Op, "const:") {
 			is = strings.TrimPrefix(idx.Op, "const:")
-		}
-		if fr.inLoop(x.Block()) {
+		} else if strings.HasPrefix(idx.Op, "in:") && len(idx.Args) == 0 {
+			is = strings.TrimPrefix(idx.Op, "in:")
+		} else if fr.inLoop(x.Block()) {
 			is = "i"
 		}
 		fr.vals[x] = tval{addr: base.addr + "[" + is + "]"}
@@ -852,9 +896,12 @@ func (ti *TermInterp) call(fr *termFrame, x *ssa.Call, p *termPath, depth int) b
 		return true
 	}
 	cal := StaticCallee(x)
+	if _, isW := ti.Cfg.Writers[name]; isW {
+		goto atomic
+	}
 	if cal != nil && core.InModule(cal) && cal.Blocks != nil && ti.Cfg.Inline != nil && ti.Cfg.Inline(cal) && depth < ti.Cfg.MaxDepth {
 		// interpret the callee on this path; all of its paths continue the caller
-		nfr := &termFrame{fn: cal, vals: map[ssa.Value]tval{}, visit: map[*ssa.BasicBlock]int{}, ctx: fr.ctx + cal.Name() + x.Name() + "/", loopSnap: map[*ssa.BasicBlock]map[string]string{}}
+		nfr := &termFrame{fn: cal, vals: map[ssa.Value]tval{}, visit: map[*ssa.BasicBlock]int{}, ctx: fr.ctx + cal.Name() + x.Name() + "/", loopSnap: map[*ssa.BasicBlock]map[string]*Term{}}
 		for i, prm := range cal.Params {
 			if i < len(args) {
 				nfr.vals[prm] = args[i]
@@ -934,7 +981,13 @@ atomic:
 		}
 		if written {
 			// stream-like receivers accumulate: write(prev, data)
-			if f != nil && (f.Name() == "Write" || f.Name() == "WriteByte" || f.Name() == "WriteString") && i == 0 {
+			if name == "encoding/binary.Write" && i == 0 && len(at) >= 3 {
+				ti.writeObj(a.addr, T("write", at[0], T("le", at[2])), p)
+			} else if op, isW := ti.Cfg.Writers[name]; isW && i == 0 && len(at) >= 2 {
+				ti.writeObj(a.addr, T("write", at[0], T(op, at[1:]...)), p)
+			} else if f != nil && f.Name() == "Reset" && i == 0 {
+				ti.writeObj(a.addr, T("reset"), p)
+			} else if f != nil && (f.Name() == "Write" || f.Name() == "WriteByte" || f.Name() == "WriteString") && i == 0 {
 				ti.writeObj(a.addr, T("write", append([]*Term{at[0]}, at[1:]...)...), p)
 			} else if name == "encoding/binary.Write" && i == 0 {
 				ti.writeObj(a.addr, T("write", at[0], T("le", at[2])), p)
@@ -1138,4 +1191,26 @@ func (pr *PathResult) HasCond(t *Term, negated bool, comm map[string]bool) bool 
 		}
 	}
 	return false
+}
+
+// FlattenStream turns the term of a stream object (hasher, buffer) into the sequence of
+// items written to it since its creation / last reset. Loops appear as one item
+// loop(item, item, ...). The first return value is the stream's origin (constructor call, "reset", input).
+func FlattenStream(t *Term) (*Term, []*Term) {
+	switch {
+	case t.Op == "write" && len(t.Args) >= 2:
+		base, items := FlattenStream(t.Args[0])
+		return base, append(items, t.Args[1:]...)
+	case t.Op == "loop" && len(t.Args) == 2:
+		base, pre := FlattenStream(t.Args[0])
+		_, after := FlattenStream(t.Args[1])
+		var body []*Term
+		if len(after) >= len(pre) {
+			body = after[len(pre):]
+		} else {
+			body = after
+		}
+		return base, append(append([]*Term{}, pre...), T("loop", body...))
+	}
+	return t, nil
 }
